@@ -23,6 +23,7 @@ def tasks(tier, seed=0):
         out.append(task(M, "ob_backend_cache", f"truth.Backend.{w}/cache-invariant", ["C10"], which=w))
         out.append(task(M, "ob_concrete_truth", f"truth.BackendConcrete.{w}/sound", ["C10"], which=w))
         out.append(task(M, "ob_bool_check", f"truth.bool_check.{w}/sound", ["C10"], which=w))
+        out.append(task(M, "ob_bool_check_node", f"truth.bool_check.{w}[structured-expression]/sound", ["C10"], which=w))
         out.append(task(M, "ob_z3_truth", f"truth.BackendZ3._{w}/sound-for-every-solver", ["C10"], which=w))
     out.append(task(M, "ob_backend_init_downsize", "truth.Backend.__init__+downsize/caches-separate-and-empty", ["C10"]))
     out.append(task(M, "ob_cache_writers", "truth.caches/only-methods-under-contract-touch-them", ["C10"]))
